@@ -22,7 +22,9 @@ var injectKinds = []string{"goto", "labelled-break", "labelled-continue", "selec
 	// constructs inside a range statement that stays native in a generator (pointer to array, function)
 	"defer-in-ptr-range", "defer-in-func-range", "select-in-ptr-range", "goto-in-func-range",
 	// a yield in the initialiser of an if / else-if whose chain ALSO has a yielding branch
-	"yield-if-init-yielding-branch", "yield-elseif-init-yielding-branch", "yield-if-init-yielding-else"}
+	"yield-if-init-yielding-branch", "yield-elseif-init-yielding-branch", "yield-if-init-yielding-else",
+	// a yield in the initialiser of a for / switch nested in a range statement that stays native
+	"yield-for-init-in-func-range", "yield-switch-init-in-ptr-range"}
 
 // rawInject returns the source text of the construct (placeholders as in templates).
 func rawInject(kind string, tag func() int, control bool) string {
@@ -61,6 +63,10 @@ func rawInject(kind string, tag func() int, control bool) string {
 		return fmt.Sprintf("if len(\"x\") == 2 {\n\tvrt.E(%d)\n} else if «Yield»(73); len(\"x\") == 1 {\n\t«Yield»(72)\n}\nvrt.E(%d)", tag(), tag())
 	case "yield-if-init-yielding-else":
 		return fmt.Sprintf("if «Yield»(71); len(\"x\") == 2 {\n\tvrt.E(%d)\n} else {\n\t«Yield»(70)\n}", tag())
+	case "yield-for-init-in-func-range":
+		return fmt.Sprintf("for v9 := range func(yield func(int) bool) {\n\t_ = yield(1) && yield(2)\n} {\n\tfor «Yield»(v9); v9 < 0; {\n\t}\n\tvrt.E(%d, v9)\n}\n«Yield»(69)", tag())
+	case "yield-switch-init-in-ptr-range":
+		return fmt.Sprintf("arr9 := [2]int{7, 8}\nfor _, v9 := range &arr9 {\n\tswitch «Yield»(v9); v9 {\n\tcase 7:\n\t\tvrt.E(%d)\n\t}\n}\n«Yield»(68)", tag())
 	case "yield-switch-init":
 		return fmt.Sprintf("switch «Yield»(98); {\ndefault:\n\tvrt.E(%d)\n}", tag())
 	case "go-yield":
@@ -103,7 +109,7 @@ func rawInject(kind string, tag func() int, control bool) string {
 func Inject(r *prng.R, f *Func, tag func() int) Injection {
 	kinds := injectKinds
 	inj := Injection{Kind: kinds[r.Intn(len(kinds))], Control: r.Chance(1, 4)}
-	if inj.Control && (strings.HasPrefix(inj.Kind, "yield-if") || strings.HasPrefix(inj.Kind, "yield-elseif") || inj.Kind == "yield-switch-init" || inj.Kind == "go-yield" || inj.Kind == "yield-as-value" || strings.HasSuffix(inj.Kind, "-noyield")) {
+	if inj.Control && (strings.HasPrefix(inj.Kind, "yield-if") || strings.HasPrefix(inj.Kind, "yield-for-init") || strings.HasPrefix(inj.Kind, "yield-switch-init-in") || strings.HasPrefix(inj.Kind, "yield-elseif") || inj.Kind == "yield-switch-init" || inj.Kind == "go-yield" || inj.Kind == "yield-as-value" || strings.HasSuffix(inj.Kind, "-noyield")) {
 		inj.Control = false // these constructs ARE a yield; there is no yield-free control of them
 	}
 	text := rawInject(inj.Kind, tag, inj.Control)
